@@ -522,6 +522,8 @@ def r_plaquette(geo, where, G, nrm, rng, bare=False):
           "autogroup": rng.choice([True, False]), "layer_tags": rng.choice([("KET", "BRA"), None])}
     if rng.random() < 0.5:
         kw["cutoff"] = 0.0
+    if kw["mode"] == "full-bond" and kw["max_bond"] is None:
+        kw["max_bond"] = 256      # this mode compares bond sizes with the cap: it needs a number
     key = _terms_key(where, bare)
     ra = rng.random() < 0.5
     desc = "return_all=%s,%s" % (ra, ",".join("%s=%s" % kv for kv in sorted(kw.items())))
